@@ -92,9 +92,11 @@ Captures(I, g) == {v \in UNION {UsedBy(I, n) : n \in NodesDeep(I, g)} : GraphOfV
 \* what a root node depends on: its inputs and everything its bodies capture
 Dep(I, n) == UsedBy(I, n) \cup UNION {Captures(I, g) : g \in Subgraphs(I, n)}
 
-\* Instance-level tables (computed once per instance; T.dep = Dep, T.init = InitVals, ...)
+\* _collect_all_external_values(parent_graph = root, g), used by Part 2
 ExternalVals(I, g) == {v \in UNION {UsedBy(I, m) : m \in NodesDeep(I, g)} : GraphOfVal(I, v) = Root}
 
+\* From here on T is the record of instance-level tables Tables(I) defined in Part 3 (T.dep[n] = Dep(I, n),
+\* T.init = InitVals(I), T.ext, T.den); the model checker computes it once per instance.
 Closed(T, S, ins) == \A n \in S : \A v \in T.dep[n] \ ins : Prod(v) # 0 => Prod(v) \in S
 Seeds(ins, outs) == {Prod(v) : v \in outs \ ins} \ {0}
 
@@ -148,8 +150,7 @@ RBody(I, S, B, J, g) == LET bo == BodyOut(I, g) IN <<1000 + g>> \o [i \in 1..Len
 \* the expected outcome of extract(root, ins, outs)
 Expected(T, ins, outs) ==
   LET D == Decl(T, ins, outs)
-  IN IF D.frontier # {} THEN [raise |-> TRUE, nodes |-> <<>>, inits |-> {}]
-     ELSE [raise |-> FALSE, nodes |-> XSorted(D.need), inits |-> D.inits]
+  IN [raise |-> D.frontier # {}, nodes |-> XSorted(D.need), inits |-> D.inits, frontier |-> D.frontier]
 
 \* ================================================================= Part 2: the code, transcribed
 \* T.ext[n][i] = _collect_all_external_values(parent_graph = root, i-th body of n)  (ExternalVals above)
